@@ -53,6 +53,10 @@ func checkC04(c *Ctx) {
 	crossScenarioKeys(c, "R04h", "go")
 	r.Rule("R04i", "codec collectors visit nested declarations unconditionally (a nested annotated message must get its codec)", 14)
 	collectorRecursion(c, "R04i")
+	r.Rule("R04j", "reads of the run-wide unwrap table fall back to the descriptor (shared with C15/R15f): the encoding of a message must not depend on which files are generated together", 2)
+	c.checkGlobalTableReads("R04j")
+	r.Rule("R04k", "empty_behavior: every key written as null by the emitted encoder is mapped back by the emitted decoder, whatever the order of the settings", 14)
+	emptyBehaviorPairing(c, "R04k")
 
 	type siteAgg struct {
 		pos  string
